@@ -259,6 +259,11 @@ fn post_m<const N: usize>(m: &Map<Key, Val, N>, o: &mut Out) {
     }
     if n != m.len() { fault(format!("LEN_MISMATCH len()={} but iteration yields {}", m.len(), n)); }
     if m.is_empty() != (m.len() == 0) { fault("IS_EMPTY is_empty() disagrees with len()".into()); }
+    // with a lawful == (injected panics included) two stored keys are never equal
+    if !with_ctx(|c| c.adv) && n == m.len() {
+        let cls: Vec<u64> = m.keys().filter(|k| k.ok()).map(|k| k.cls.0).collect();
+        for (i, c) in cls.iter().enumerate() { if cls[..i].contains(c) { fault(format!("DUP_KEY the map holds two keys of class {} although == is lawful", c)); break; } }
+    }
 }
 fn post_s<const N: usize>(s: &Set<Key, N>, o: &mut Out) {
     o.push(7777); o.push(s.len() as u64); o.push(s.capacity() as u64);
@@ -272,6 +277,10 @@ fn post_s<const N: usize>(s: &Set<Key, N>, o: &mut Out) {
     }
     if n != s.len() { fault(format!("LEN_MISMATCH len()={} but iteration yields {}", s.len(), n)); }
     if s.is_empty() != (s.len() == 0) { fault("IS_EMPTY is_empty() disagrees with len()".into()); }
+    if !with_ctx(|c| c.adv) && n == s.len() {
+        let cls: Vec<u64> = s.iter().filter(|k| k.ok()).map(|k| k.cls.0).collect();
+        for (i, c) in cls.iter().enumerate() { if cls[..i].contains(c) { fault(format!("DUP_KEY the set holds two elements of class {} although == is lawful", c)); break; } }
+    }
 }
 
 fn inside<T>(c: &T, addr: usize, sz: usize) {
